@@ -452,6 +452,7 @@ Note2: you can use PyPy to speed the generation, but you should avoid using PyPy
         ptee.write("Loading the database into memory, please wait...")
         md5list = {}
         sha1list = {}
+        hashlist = {}
         dbrows = {} # TODO: instead of memorizing everything in memory, store just the reading cursor position at the beginning of the line with the size and then just read when necessary from the db file directly
         id = 0
         with _open_csv(database, 'r') as db:
@@ -460,6 +461,7 @@ Note2: you can use PyPy to speed the generation, but you should avoid using PyPy
                 if (len(row['md5']) > 0 and len(row['sha1']) > 0):
                     md5list[row['md5']] = id
                     sha1list[row['sha1']] = id
+                    hashlist[(row['md5'], row['sha1'])] = id # a file is recognised by BOTH its hashes together: two recorded files may share one of them (md5 collisions exist)
                     dbrows[id] = row
         ptee.write("Loading done.")
 
@@ -490,9 +492,9 @@ Note2: you can use PyPy to speed the generation, but you should avoid using PyPy
                 # Generate the hashes from the currently inspected file
                 md5hash, sha1hash = generate_hashes(filepath)
                 # If it match with a file in the database, we will copy it over with the correct name, directory structure, file extension and last modification date
-                if md5hash in md5list and sha1hash in sha1list and md5list[md5hash] == sha1list[sha1hash]:
+                if (md5hash, sha1hash) in hashlist:
                     # Load the db infos for this file
-                    row = dbrows[md5list[md5hash]]
+                    row = dbrows[hashlist[(md5hash, sha1hash)]]
                     ptee.write("- Found: %s --> %s.\n" % (filepath, row['path']))
                     # Generate full absolute filepath of the output file
                     outfilepath = os.path.join(outputpath, row['path'])
